@@ -237,6 +237,17 @@ class UserCM:
         return f"UserCM({self.name})"
 
 
+class EnvGen:
+    """a user (async) generator object seen through its protocol: next / throw / close are environment events"""
+    def __init__(self, name):
+        self.name = name
+        self.state = "fresh"    # fresh / suspended / done
+        self.ops = 0
+
+    def __repr__(self):
+        return f"EnvGen({self.name},{self.state})"
+
+
 class UserAwaitable:
     """result of invoking a user callable through the awaitify contract: the Call event was emitted
     at invocation (seq number `at`), value / exception is delivered when awaited"""
